@@ -136,7 +136,7 @@ class Func:
 class Attr:
     name: str
     ann: Ann | None
-    value: str
+    value: str | None
     doc: str = ""
     instance: bool = False   # assigned in __init__ as self.name
 
@@ -172,6 +172,7 @@ class Module:
     enums: list[Enum_] = field(default_factory=list)
     typevars: list[str] = field(default_factory=list)
     typevar_decls: dict | None = None
+    constants: list = field(default_factory=list)     # [(name, value source, trailing string or None)]
     order: list | None = None   # explicit order of top-level declarations (list of ('f'|'c'|'e', index))
 
 
@@ -328,7 +329,7 @@ def cls_src(c: Cls, style: str, indent: str) -> str:
     for a in c.attrs:
         if not a.instance:
             ann = f": {a.ann.src()}" if a.ann is not None else ""
-            body += f"{indent}    {a.name}{ann} = {a.value}\n"
+            body += f"{indent}    {a.name}{ann}" + (f" = {a.value}" if a.value is not None else "") + "\n"
     for ic in c.inner:
         body += "\n" + (enum_src(ic, style, indent + "    ") if isinstance(ic, Enum_) else cls_src(ic, style, indent + "    "))
     if c.init is not None:
@@ -367,6 +368,10 @@ def module_src(m: Module, style: str) -> str:
         out += imp + "\n"
     for tv in m.typevars:
         out += (m.typevar_decls or {}).get(tv, f'{tv} = TypeVar("{tv}")') + "\n"
+    for cname, cval, cdoc in m.constants:
+        out += f"{cname}: int = {cval}\n"
+        if cdoc:
+            out += f'"""{cdoc}"""\n'
     order = m.order or ([("e", i) for i in range(len(m.enums))] + [("c", i) for i in range(len(m.classes))]
                         + [("f", i) for i in range(len(m.funcs))])
     for k, i in order:
@@ -405,7 +410,7 @@ class Names:
     def fresh(self, shape: str, private: bool = False) -> str:
         k = self.num()
         base = {"func": ["calc_value_", "run", "get_x_y_", "doIt", "f"],
-                "cls": ["Widget", "DataHolder", "HTTPServer", "C"],
+                "cls": ["Widget", "DataHolder", "HTTPServer", "C", "Round__Shape", "Io__"],
                 "attr": ["count_", "max_val_", "a", "someAttr"],
                 "param": ["p", "arg_", "some_param_", "x"],
                 "enum": ["Color", "mode_kind_"],
@@ -590,6 +595,12 @@ def gen_inferred_body(rng: random.Random, depth: int = 2):
         return [ind + "match a:", ind + "    case 1:"] + block(d - 1, ind + "        ") + [ind + "    case _:"] + block(d - 1, ind + "        ")
 
     lines = block(depth, "")
+    if rng.random() < 0.3:
+        # two tuple returns of different length over the same element types, the shorter one first
+        (s1, v1), (s2, v2) = lit(), lit()
+        returned.append((v1, v2))
+        returned.append((v1, v2, v2))
+        lines = [f"if a == 7:", f"    return {s1}, {s2}", f"if a == 8:", f"    return {s1}, {s2}, {s2}"] + lines
     return "\n".join(lines), returned
 
 
@@ -656,7 +667,17 @@ def gen_class(rng, names: Names, refs, tvs, *, private=False, depth=1, docs=True
             kw = rng.choice(SDS_KEYWORDS_PY_LEGAL)
             if all(a.name != kw for a in c.attrs):
                 an = kw
-        if rng.random() < 0.75:
+        r_ = rng.random()
+        if r_ < 0.3:
+            a_ = gen_ann(rng, 2, refs, tvs=None)
+            if rng.random() < 0.5:
+                a_ = Ann(rng.choice(["set", "list", "dict", "tuple"]), [gen_ann(rng, 1, refs), gen_ann(rng, 1, refs)][: rng.choice([1, 2])])
+                if a_.kind == "dict" and len(a_.args) == 1:
+                    a_.args.append(Ann("int"))
+                if a_.kind in ("set", "list"):
+                    a_.args = a_.args[:1]
+            c.attrs.append(Attr(an, a_, None))     # `name: <annotation>` without a value
+        elif r_ < 0.8:
             src, val = rng.choice([d for d in LIT_DEFAULTS if d[1] is not None])
             c.attrs.append(Attr(an, ann_for_default(val), src))
         else:
@@ -692,7 +713,7 @@ def gen_class(rng, names: Names, refs, tvs, *, private=False, depth=1, docs=True
 
 
 def gen_package(rng: random.Random, idx: int, *, style="plaintext", nmods=3, reexports=True, subpackage=True, keywords=False,
-                docs=True, cross_refs=True, private_bases=True, doc_types=False, generics=True) -> Package:
+                docs=True, cross_refs=True, private_bases=True, doc_types=False, generics=True, reuse=True) -> Package:
     tag = f"q{idx}"
     names = Names(rng, tag)
     root = f"pkg{tag}"
@@ -712,6 +733,8 @@ def gen_package(rng: random.Random, idx: int, *, style="plaintext", nmods=3, ree
         m = Module(f"{d}/{mname}.py", f"{dd}.{mname}")
         if docs and rng.random() < 0.5:
             m.doc = f"Module doc of {mname}."
+        if rng.random() < 0.4:
+            m.constants.append((f"CONST_{names.num()}{tag}".upper(), "1", f"Doc of a constant in {mname}." if rng.random() < 0.7 else None))
         # type variables: the same name in every module of the package on half of the packages
         tv = f"T{tag}" if shared_tv else names.fresh("tv")
         m.typevars = [tv]
@@ -778,6 +801,36 @@ def gen_package(rng: random.Random, idx: int, *, style="plaintext", nmods=3, ree
                 if rng.random() < 0.5 and not sub.bases:
                     sub.bases = [base.name]
                     sub.base_refs = [(base.name, m.dotted, base.name.startswith("_"))]
+        if reuse:
+            for sub in m.classes:
+                if not sub.base_refs:
+                    continue
+                base = next((c for c in m.classes if c.name == sub.base_refs[0][0]), None)
+                if base is None:
+                    continue
+                # a private grand-base below the private base
+                if base.name.startswith("_") and not base.bases and rng.random() < 0.5:
+                    gb = gen_class(rng, names, [], [tv], private=True, docs=docs, depth=0)
+                    if not any(not f.name.startswith("_") for f in gb.methods):
+                        gb.methods.append(Func(names.fresh("func"), [], ret=Ann("int")))
+                    m.classes.insert(m.classes.index(base), gb)
+                    base.bases = [gb.name]
+                    base.base_refs = [(gb.name, m.dotted, True)]
+                    # the public subclass overrides a method of the grand-base
+                    pub = [f for f in gb.methods if not f.name.startswith("_") and f.deco == "plain"]
+                    if pub and all(f.name != pub[0].name for f in sub.methods):
+                        sub.methods.append(Func(pub[0].name, [], ret=Ann("str")))
+                # the subclass overrides a method of its direct base
+                pubm = [f for f in base.methods if not f.name.startswith("_") and f.deco == "plain"]
+                if pubm and rng.random() < 0.5 and all(f.name != pubm[0].name for f in sub.methods):
+                    sub.methods.append(Func(pubm[0].name, [], ret=Ann("str")))
+            # a nested class with an attribute named like an attribute of its enclosing class
+            for c in m.classes:
+                for ic in c.inner:
+                    if isinstance(ic, Cls) and c.attrs and rng.random() < 0.6:
+                        a0 = next((a for a in c.attrs if not a.instance), None)
+                        if a0 is not None and all(x.name != a0.name for x in ic.attrs):
+                            ic.attrs.insert(0, Attr(a0.name, Ann("int"), "1"))
         # a nested class that reuses the name of a module-level private base, declared in an earlier class
         privs = [c for c in m.classes if c.name.startswith("_") and any(b[0] == c.name for s_ in m.classes for b in s_.base_refs)]
         if privs and rng.random() < 0.6:
@@ -813,6 +866,21 @@ def gen_package(rng: random.Random, idx: int, *, style="plaintext", nmods=3, ree
                 else:
                     init.lines.append(f"from .{modname} import {f.name}")
                     init.reexports.append(("name", m.dotted, f.name, None))
+    # a sub-package module with the same (private) file name as a re-exported module of the parent package
+    if reuse and len(dirs) > 1:
+        for init in inits:
+            if init.dotted != root:
+                continue
+            for kind, moddotted, fname, alias in list(init.reexports):
+                mname = moddotted.rsplit(".", 1)[1]
+                subd, subdd = dirs[1]
+                if mname.startswith("_") and moddotted.rsplit(".", 1)[0] == root and not any(m.path == f"{subd}/{mname}.py" for m in mods):
+                    twin = Module(f"{subd}/{mname}.py", f"{subdd}.{mname}")
+                    twin.funcs.append(Func(fname, [], ret=Ann("int")))      # same declaration name as the re-exported one
+                    twin.funcs.append(Func(names.fresh("func"), [], ret=Ann("int")))
+                    twin.classes.append(Cls(names.fresh("cls"), methods=[Func(names.fresh("func"), [], ret=Ann("int"))]))
+                    mods.append(twin)
+                    break
     # suffix stress: a private declaration whose name is a suffix of a re-exported name lives in another module of the
     # same package; the unchanged tool tells them apart by the qualified name
     for init in inits:
